@@ -298,6 +298,65 @@ def work_runtime(task):
     return ev
 
 
+def work_damaged(task):
+    """Run-time failures that come from the input file: generated forests in which one DIE's abbreviation code is
+    overwritten with a code its table does not define.  Every way of walking to that DIE -- `entry`, `child` of its
+    parent, `child*` from the root -- yields what comes before it and then fails through zw_result_next; the
+    command line tool prints a message and exits with status 2.  (Ending the enumeration quietly is not an option:
+    the DIEs behind the damaged one are lost without a word.)"""
+    seed, start, count = task
+    from .. import dwforest as DF
+    from ..dwgen import build_file
+    from ..dwcheck import TempElf
+    ev = Evidence()
+    drv = Driver(timeout=120)
+    try:
+        for i in range(start, start + count):
+            rnd = random.Random((seed << 32) ^ (i * 2654435761 & 0xffffffff) ^ 0xDA14)
+            g = DF.ForestGen(rnd, DF.FCfg(max_units=3, max_dies=30, partial=0.0, bulk=0.0, line_tables=False, refs=False, type_units=0.0, versions=(3, 4, 5)))
+            f = g.forest()
+            cands = [(par, k) for par in f.all_dies() for k in range(1, len(par.children))]
+            if not cands:
+                continue
+            par, k = rnd.choice(cands)
+            victim = par.children[k]
+            data = bytearray(build_file(f))
+            info, _ = f.layout()
+            at = bytes(data).find(bytes(info))
+            if at < 0 or victim.abbrev_code >= 0x7f or len(victim.unit.abbrevs.entries) >= 0x7e:
+                continue
+            data[at + victim.offset] = 0x7f
+            before = [c.offset for c in par.children[:k]]
+            with TempElf(bytes(data)) as path:
+                try:
+                    tok = "V%d" % drv.open(path, True)
+                    for q, want in (("entry (offset == %d) child offset" % par.offset, before), ("entry (offset == %d) child* (pos < 200) offset" % par.offset, None),
+                                    ("entry offset", None)):
+                        r = drv.run(q, tok, limit=1000, steps=5000000)
+                        ev.case(key=("damaged", i, q), nontrivial=True)
+                        ev.label("damaged-file")
+                        got = [int(s_[-1]["v"]) for s_ in r.get("res", [])]
+                        if "error" not in r or not r["error"] or (want is not None and got != want) or victim.offset in got:
+                            ev.violations.append({"property": PID, "query": q, "elf_hex": bytes(data).hex()[:40000], "signature": "C14:damaged:%s" % q.split(" ")[-2],
+                                                  "reason": "DIE %#x (child #%d of %#x) has an abbreviation code its table does not define; `%s` yields %r and %s"
+                                                  % (victim.offset, k, par.offset, q, got[:12], ("fails with %r" % r["error"]) if r.get("error") else "ends as if nothing were wrong")})
+                            break
+                    if i % 5 == 0:
+                        rc, out, err = run_cli([path, "-e", "raw entry (offset == %d) child offset" % par.offset])
+                        ev.case(key=("damaged-cli", i), nontrivial=True)
+                        if rc != 2 or b"dwgrep:" not in err:
+                            ev.violations.append({"property": PID, "query": "raw entry (offset == %d) child offset" % par.offset, "elf_hex": bytes(data).hex()[:40000],
+                                                  "signature": "C14:damaged-cli", "reason": "the command line tool on a file with a damaged DIE: exit status %d, stderr %r" % (rc, err[:200])})
+                except DriverCrash as e:
+                    ev.violations.append({"property": PID, "query": "damaged file", "elf_hex": bytes(data).hex()[:40000], "reason": "crash on a damaged file: " + e.report[-2500:],
+                                          "signature": "C14:damaged-crash:%d" % i})
+                except (DriverTimeout, RuntimeError):
+                    ev.inconc("damaged file: watchdog or cannot open")
+    finally:
+        drv.kill()
+    return ev
+
+
 def run_cli(args, stdin=None):
     env = dict(os.environ)
     env["ASAN_OPTIONS"] = "detect_leaks=0:abort_on_error=0"
@@ -535,6 +594,8 @@ def main(tier, seed):
     per = max(5, nprog // 48)
     ev.merge(run_pool(work_mut, [(seed, s, min(per, nprog - s)) for s in range(0, nprog, per)]))
     ev.merge(work_runtime(None))
+    nd_ = 160 if tier == "quick" else 4000
+    ev.merge(run_pool(work_damaged, [(seed, s_, 10) for s_ in range(0, nd_, 10)]))
     nh = 48 if tier == "quick" else 1500
     ev.merge(run_pool(work_history, [(seed, s_, 2) for s_ in range(0, nh, 2)]))
     ev.extra["parse_histories"] = nh
@@ -569,7 +630,7 @@ def main(tier, seed):
                   health={"rejections by several rules seen": sum(1 for k in ev.labels if k.startswith("reject:")) >= 5,
                           "accepted inputs seen": ev.labels.get("accepted", 0) > 100,
                           "runtime failures seen": ev.labels.get("runtime-failure-at-pull", 0) > 0,
-                          "fuzzer ran": res["stats"].get("execs", 0) > 0, "parse histories": ev.labels.get("history-parse", 0) > 1000,
+                          "fuzzer ran": res["stats"].get("execs", 0) > 0, "damaged files": ev.labels.get("damaged-file", 0) > 200, "parse histories": ev.labels.get("history-parse", 0) > 1000,
                           "deep/long shapes both accepted and rejected": ev.labels.get("scale:accepted", 0) > 20 and ev.labels.get("scale:reject", 0) > 20})
 
 
